@@ -30,6 +30,7 @@ use vh::{guarded, p, Sm};
 /// optional Debug rendering ("autoref specialisation": the bounded impl on `Wrap<T>` is preferred, the
 /// unbounded one on `&Wrap<T>` is the fallback when the type has no Debug impl)
 struct Wrap<'a, T>(&'a T);
+#[allow(dead_code)]
 trait DbgYes {
     fn dbg(&self) -> Option<(String, String)>;
 }
